@@ -51,6 +51,7 @@ func vLoad() {
 		if err != nil {
 			panic(err)
 		}
+		vState.file = vReplayFile{}
 		if err := json.Unmarshal(b, &vState.file); err != nil {
 			panic(err)
 		}
@@ -223,8 +224,72 @@ func vExpand(seed []byte, n int) []byte {
 	return out[:n]
 }
 
+// vObserve records values for the differential (translator-validation) runs:
+// the native run and the interpreter's concrete run must produce the same text.
 func vObserve(name string, vs ...interface{}) {
-	vState.events = append(vState.events, fmt.Sprint(append([]interface{}{name + "="}, vs...)...))
+	s := name + "="
+	for _, v := range vs {
+		s += vFmt(v) + ","
+	}
+	vState.events = append(vState.events, s)
+}
+
+func vFmt(v interface{}) string {
+	switch x := v.(type) {
+	case nil:
+		return "nil"
+	case bool:
+		if x {
+			return "true"
+		}
+		return "false"
+	case string:
+		return fmt.Sprintf("%q", x)
+	case *big.Int:
+		if x == nil {
+			return "nil"
+		}
+		return "0x" + x.Text(16)
+	case error:
+		return "err"
+	}
+	rv := reflect.ValueOf(v)
+	switch rv.Kind() {
+	case reflect.Int, reflect.Int8, reflect.Int16, reflect.Int32, reflect.Int64:
+		return fmt.Sprintf("%d", rv.Int())
+	case reflect.Uint, reflect.Uint8, reflect.Uint16, reflect.Uint32, reflect.Uint64:
+		return fmt.Sprintf("%d", rv.Uint())
+	case reflect.Slice:
+		if rv.IsNil() {
+			return "nil"
+		}
+		if rv.Type().Elem().Kind() == reflect.Uint8 {
+			b := make([]byte, rv.Len())
+			reflect.Copy(reflect.ValueOf(b), rv)
+			return fmt.Sprintf("x%x", b)
+		}
+		s := "["
+		for i := 0; i < rv.Len(); i++ {
+			s += vFmt(rv.Index(i).Interface()) + " "
+		}
+		return s + "]"
+	case reflect.Array:
+		if rv.Type().Elem().Kind() == reflect.Uint8 {
+			b := make([]byte, rv.Len())
+			for i := range b {
+				b[i] = byte(rv.Index(i).Uint())
+			}
+			return fmt.Sprintf("x%x", b)
+		}
+	case reflect.String:
+		return fmt.Sprintf("%q", rv.String())
+	case reflect.Bool:
+		if rv.Bool() {
+			return "true"
+		}
+		return "false"
+	}
+	return "?"
 }
 
 // vHeapHolds reports whether needle occurs in any byte sequence (or as the
